@@ -360,6 +360,8 @@ def rule_decoder_state(ck, R, rule='C06.f'):
 
 
 def run(ck):
+    ck.rule('C06.h', 'the numeric response, type, option and meta codes behind the enumerators are those of the protocol document (C08.a re-evaluated): the error response prescribed for a verdict carries the prescribed code')
+    ck.rule('C06.g', 'the receive sink (continuable sink) stores min(n, free space), reports an overflow exactly when octets were dropped, and always consumes what it is given (C09.a re-evaluated)')
     ck.rule('C06.f', 'the SLIP decoder context of regp_recv belongs to the instance (its skip-to-end state after a damaged frame survives the call) and is initialised by regp_init / regp_use_channel')
     ck.rule('C06.a', 'on every path of regp_process: <= 1 backend access, <= 1 reply; a backend access is dominated by frame != NULL, error.id == 0, request type, matching word size and followed by exactly one reply; responses/meta/failed frames cause neither; nothing is stored in the instance')
     ck.rule('C06.b', 'the backend is called with the request\'s address, block size and payload through the accessor selected by frame type and memory width; read ACK = same buffer and count, write ACK = no payload')
@@ -403,3 +405,8 @@ def run(ck):
     finally:
         ck.verdict = orig_v
     rule_e(ck, R)
+    from .common import reevaluate
+    reevaluate(ck, 'C06.g', 'c09', lambda r, k: r == 'C09.a',
+               'the receive sink stores exactly what arrived: a request is executed with the payload that was received')
+    reevaluate(ck, 'C06.h', 'c08', lambda r, k: r == 'C08.a',
+               'the response code on the wire is the enumerator\'s value')
